@@ -90,6 +90,8 @@ def configs(tier):
     else:
         sizes = (0, 1, L, L + 1, 2 * L)
         for nak, size, cks in itertools.product(("imm", "def"), sizes, ("crc32", "crc32c")):
+            if nak == "imm" and size >= L + 1 and (cks == "crc32c") == (size == L + 1):
+                continue  # the two-segment immediate-NAK graphs have 0.5M states each: one checksum type per size (crc32c for 2L, crc32 for L+1)
             add(link="chaos", mode="ack", nak=nak, size=size, cks=cks, ack_limit=1, nak_limit=1, kinds=flips)
         for nak, size, cks in itertools.product(("imm", "def"), sizes, ("null", "mod")):
             add(link="chaos", mode="ack", nak=nak, size=size, cks=cks, ack_limit=1, nak_limit=1, kinds=())
